@@ -354,6 +354,8 @@ type Gen struct {
 	Used map[string]bool
 	// probability (in %) of a deliberately ill-typed operand wrapped in catch()
 	PWrong int
+	// probability (in %) that a non-leaf expression is a call into the modelled library (extension functions, abs, keys)
+	PLib int
 }
 
 func NewGen(r *rand.Rand) *Gen {
@@ -436,8 +438,93 @@ func (g *Gen) varOf(t gType) (gVar, bool) {
 	return vs[g.pick(len(vs))], true
 }
 
+var intStrings = []string{"0", "12", "-7", "+5", "0x1F", "0b101", "0o17", "017", "1_000", "", "9223372036854775807", "-9223372036854775808", "9223372036854775808", "1_", "12a", " 1", "0x", "1.5"}
+
+// libExpr: an expression of type t whose root is a call into the modelled library (ok=false: none for that type).
+func (g *Gen) libExpr(t gType, d int) (J, bool) {
+	lib := func(name string, a ...J) J { g.use("lib"); g.use("lib-" + name); return nCall(nId(name), a...) }
+	str := func() J { return g.expr(tStr, d+1) }
+	sep := func() J { return nStr([]string{",", "", " ", "a", "é", "ab"}[g.pick(6)]) }
+	switch t {
+	case tInt:
+		switch g.pick(9) {
+		case 0:
+			return lib("int", g.expr(tFloat, d+1)), true
+		case 1:
+			s := intStrings[g.pick(len(intStrings))]
+			if g.chance(70) {
+				s = intStrings[g.pick(9)] // the well-formed ones
+			}
+			return lib("int", nStr(s)), true
+		case 2:
+			return lib("int", []J{nBool(g.chance(50)), nId("nil"), g.expr(tInt, d+1)}[g.pick(3)]), true
+		case 3:
+			return lib("round", g.expr(tFloat, d+1)), true
+		case 4:
+			return lib("rune_len", str()), true
+		case 5:
+			fn := []string{"min", "max"}[g.pick(2)]
+			if g.chance(40) {
+				return lib(fn, nArr(g.expr(tInt, d+1), g.expr(tInt, d+1), g.expr(tInt, d+1))), true
+			}
+			return lib(fn, g.expr(tInt, d+1), g.expr(tInt, d+1)), true
+		case 6:
+			return lib("abs", g.expr(tInt, d+1)), true
+		case 7:
+			return nBi("len", lib("split", str(), sep())), true
+		default:
+			return nBi("len", lib("keys", g.expr(tMap, d+1))), true
+		}
+	case tFloat:
+		switch g.pick(5) {
+		case 0, 1:
+			fn := []string{"floor", "ceil", "trunc", "sqrt"}[g.pick(4)]
+			if g.chance(25) {
+				return lib(fn, g.expr(tInt, d+1)), true // integer promoted to float
+			}
+			return lib(fn, g.expr(tFloat, d+1)), true
+		case 2:
+			return lib("abs", g.expr(tFloat, d+1)), true
+		case 3:
+			return lib([]string{"min", "max"}[g.pick(2)], g.expr(tFloat, d+1), g.expr(tFloat, d+1)), true
+		default:
+			g.use("lib")
+			return nId([]string{"PI", "E"}[g.pick(2)]), true
+		}
+	case tStr:
+		switch g.pick(4) {
+		case 0:
+			return lib("join", lib("split", str(), sep()), sep()), true
+		case 1:
+			fn := []string{"trim", "trim_left", "trim_right"}[g.pick(3)]
+			if g.chance(50) {
+				return lib(fn, str()), true
+			}
+			return lib(fn, str(), nStr([]string{"a", " x", "ab", "é", "", "h\n"}[g.pick(6)])), true
+		case 2:
+			return lib("join", lib("runes", str())), true
+		default:
+			return lib("join", nArr(g.expr(tInt, d+1), str(), g.expr(tBool, d+1)), sep()), true
+		}
+	case tArr:
+		if g.chance(50) {
+			return lib("runes", str(), nBool(true)), true
+		}
+		return nArr(lib("min", g.expr(tInt, d+1), g.expr(tInt, d+1)), lib("max", g.expr(tInt, d+1), g.expr(tInt, d+1))), true
+	case tBool:
+		a, b := g.expr(tInt, d+1), g.expr(tInt, d+1)
+		return nInf("<=", lib("min", a, b), lib("max", a, b)), true
+	}
+	return nil, false
+}
+
 func (g *Gen) expr(t gType, d int) J {
 	leaf := d >= g.maxDepth || g.chance(25)
+	if g.PLib > 0 && !leaf && g.chance(g.PLib) {
+		if e, ok := g.libExpr(t, d); ok {
+			return e
+		}
+	}
 	if v, ok := g.varOf(t); ok && g.chance(35) && t != tFunc {
 		return nId(v.name)
 	}
